@@ -221,7 +221,7 @@ func specCompletePath() seqmc.Spec {
 // ---- client query -> wire -> server index
 
 func specQuery(maxLen int) seqmc.Spec {
-	alpha := []string{"a", "a/b", "/", "x.y-1", "a:b", "*", "a/", "/a"}
+	alpha := []string{"a", "b", "a/b", "/", "x.y-1", "a:b", "*", "a/", "/a"} // {a, b} and {a/b}: different queries with the same plain join
 	var qs []client.Path
 	var rec func(cur client.Path)
 	rec = func(cur client.Path) {
@@ -236,9 +236,22 @@ func specQuery(maxLen int) seqmc.Spec {
 		}
 	}
 	rec(nil)
+	// queries that are spelled alike once their elements are joined with "/"
+	// ({a, b} / {a/b} / ...): converting one of them must not depend on whether
+	// another one was converted earlier in the same process
+	alike := map[string][]int{}
+	for i, q := range qs {
+		k := strings.Join(q, "/")
+		alike[k] = append(alike[k], i)
+	}
 	return seqmc.Spec{Name: fmt.Sprintf("client query of <=%d plain elements reaches the server indexed as the same elements", maxLen), N: len(qs), Run: func(i int) (string, bool, []seqmc.Violation) {
 		q := qs[i]
 		desc := fmt.Sprintf("%q", []string(q))
+		for _, j := range alike[strings.Join(q, "/")] {
+			if j != i {
+				gclient.VerifSubscribeRequest(client.Query{Target: "t", Queries: []client.Path{append(client.Path{}, qs[j]...)}, Type: client.Once})
+			}
+		}
 		class := "query-roundtrip"
 		if strings.HasSuffix(q[len(q)-1], "/") {
 			class = "query-last-element-ends-with-slash"
